@@ -49,63 +49,30 @@ func (h OperatorHooksWrapper) AfterOperatorKeyReplaced(
 	// should be cleared.
 	consAddr := oldKey.ToConsAddr()
 	if chainID == avstypes.ChainIDWithoutRevision(ctx.ChainID()) {
-		// is the oldKey already active? if not, we should not do anything.
-		// this can happen if we opt in with a key, then replace it with another key
-		// during the same epoch.
-		_, found := h.keeper.GetExocoreValidator(ctx, consAddr)
-		if found {
-			unbondingEpoch := h.keeper.GetUnbondingCompletionEpoch(ctx)
-			// nb: if operator sets key, it is not "at stake" till the end of the epoch.
-			// before that time, any key replacement will store a superfluous entry for pruning
-			// since the old key will not be in use.
-			// this technically gives an operator the opportunity to spam the pruning queue
-			// but it is not a security risk or a DOS vector given the cost charged.
-			h.keeper.AppendConsensusAddrToPrune(ctx, unbondingEpoch, consAddr)
-		} else {
-			// since this consAddr isn't active, we can remove it immediately.
-			h.keeper.operatorKeeper.DeleteOperatorAddressForChainIDAndConsAddr(
-				ctx, chainID, consAddr,
-			)
-		}
+		// the old key may be in the validator set right now, or may have been in it until a
+		// recent epoch end (the operator dropped out of the set because of its vote power,
+		// the validator limit or jailing, and then replaced the key). in both cases evidence
+		// for the old key can still arrive during the unbonding period, so the reverse lookup
+		// is always kept until then. for a key that never validated this only stores a
+		// superfluous entry: it is not a security risk or a DOS vector given the cost charged.
+		unbondingEpoch := h.keeper.GetUnbondingCompletionEpoch(ctx)
+		h.keeper.AppendConsensusAddrToPrune(ctx, unbondingEpoch, consAddr)
 	}
 }
 
 // AfterOperatorKeyRemovalInitiated is the implementation of the operator hooks.
 func (h OperatorHooksWrapper) AfterOperatorKeyRemovalInitiated(
-	ctx sdk.Context, operator sdk.AccAddress, chainID string, key keytypes.WrappedConsKey,
+	ctx sdk.Context, operator sdk.AccAddress, chainID string, _ keytypes.WrappedConsKey,
 ) {
 	// the impact of key removal is:
 	// 1. vote power of the operator is 0, which happens automatically at epoch end in EndBlock.
 	// this is because GetActiveOperatorsForChainID filters operators who are removing their
 	// keys from the chain.
 	// 2. X epochs later, the removal is marked complete in the operator module.
-	consAddr := key.ToConsAddr()
 	if chainID == avstypes.ChainIDWithoutRevision(ctx.ChainID()) {
-		_, found := h.keeper.GetExocoreValidator(ctx, consAddr)
-		if !found {
-			// the operator may have replaced its key during this epoch, in which case it
-			// is still validating with the previous key until the epoch ends.
-			hasPrevKey, prevKey, _ := h.keeper.operatorKeeper.GetOperatorPrevConsKeyForChainID(
-				ctx, operator, chainID,
-			)
-			if hasPrevKey {
-				_, found = h.keeper.GetExocoreValidator(ctx, prevKey.ToConsAddr())
-			}
-		}
-		if found {
-			h.keeper.SetOptOutInformation(ctx, operator)
-		} else {
-			// the operator never validated with this key, so there is nothing to wait for.
-			// complete the removal right away; otherwise the removal marker (and the key)
-			// would stay forever since no opt out completion is scheduled.
-			if err := h.keeper.operatorKeeper.CompleteOperatorKeyRemovalForChainID(
-				ctx, operator, chainID,
-			); err != nil {
-				h.keeper.Logger(ctx).Error(
-					"error completing operator key removal",
-					"operator", operator, "error", err,
-				)
-			}
-		}
+		// the key (or the key it replaced) may be validating now or may have validated until a
+		// recent epoch end, so the removal always completes after the unbonding period: until
+		// then the operator stays resolvable by its consensus address and can be slashed.
+		h.keeper.SetOptOutInformation(ctx, operator)
 	}
 }
